@@ -290,16 +290,32 @@ def run_random(ctx, d, emb, exe, tdir, replay_base, nprog, nsched):
     predicted from the model's answers through the wrapper semantics of interface.scm."""
     rng = ctx.rng
     acc = dict(feats={}, found={}, diverge=None, outcome_diff=None, n_lines=0, n_traces=0, n_outside=0, n_pred=0, n_gap=0,
-               n_df=0, runs=0, first=None, hangs=0)
+               n_df=0, runs=0, first=None, hangs=0, corrupt=[], nondf_hangs=0)
+    # corpus first: programs that reach the situations missed in round 1 (corpus/C11/*.json)
+    cdir = os.path.join(HERE, "..", "corpus", "C11")
+    cps, csc = [], []
+    for f in sorted(os.listdir(cdir)) if os.path.isdir(cdir) else []:
+        if f.endswith(".json"):
+            c = json.load(open(os.path.join(cdir, f)))
+            cps.append(c["prog"])
+            csc.append(c["schedules"])
+    if cps:
+        _random_chunk(ctx, d, emb, exe, tdir, replay_base, cps, 0, acc, scheds=csc)
+    ctx.cov["corpus_programs"] = len(cps)
     done = 0
     while done < nprog and acc["hangs"] < 6:
         k = min(100, nprog - done)           # bounded memory: 100 programs (x schedules) per round
         _random_chunk(ctx, d, emb, exe, tdir, replay_base, [R.gen_program(rng) for _ in range(k)], nsched, acc)
         done += k
+    if acc["diverge"] and not [c for c in acc["found"] if acc["found"][c] is not None]:
+        # model and code disagree but no clause of the property failed: targeted search for a failing input —
+        # the diverging program under 40 more schedules, all oracles on
+        _random_chunk(ctx, d, emb, exe, tdir, replay_base, [acc["diverge"][1]], 40, acc)
     feats, found, diverge, outcome_diff = acc["feats"], acc["found"], acc["diverge"], acc["outcome_diff"]
     ctx.cov["random_programs"] = dict(programs=done, runs=acc["runs"], traces=acc["n_traces"], trace_lines_vs_model=acc["n_lines"],
                                       outcomes_predicted=acc["n_pred"], cut_at_terminate_of_timed_waiter=acc["n_outside"],
-                                      cut_at_untraced_scheduler_call=acc["n_gap"], deadlock_free=acc["n_df"])
+                                      cut_at_untraced_scheduler_call=acc["n_gap"], deadlock_free=acc["n_df"],
+                                      hangs_of_programs_that_terminate_threads=acc["nondf_hangs"])
     ctx.cov["random_situations_reached"] = dict(sorted(feats.items()))
     ctx.cov["traces_validated_against_impl"] += acc["n_traces"]
     for cls, det in found.items():
@@ -321,14 +337,27 @@ def run_random(ctx, d, emb, exe, tdir, replay_base, nprog, nsched):
             ctx.broken("correspondence:wrapper-outcome", msg + "; program %s schedule %s" % (p["expr"], sc[:200]), replay=rp)
     if acc["first"]:
         ctx.sample(acc["first"])
+    # the minimised request batch on which the collector sweeps a live value (F-C11-2): recorded, not judged
+    gb = os.path.join(cdir, "gc-live-value-swept.batch")
+    if os.path.exists(gb):
+        try:
+            outs = run_batch(d, emb, [tuple(r) for r in json.load(open(gb))], limit=6)
+            ctx.cov["gc_live_value_swept_batch_reproduces"] = any(o and "#<" in o for o in outs)
+        except Exception as e:
+            ctx.cov["gc_live_value_swept_batch_reproduces"] = "error: %s" % e
+    ctx.cov["random_runs_with_swept_live_value"] = len(acc["corrupt"])
+    if acc["corrupt"]:
+        c = acc["corrupt"][0]
+        ctx.note("F-C11-2 (not judged by C11): %d random-program run(s) returned a log in which a value had been replaced by an unrelated heap object "
+                 "(live value swept by the collector); first: schedule %s program %s result %s" % (len(acc["corrupt"]), c["schedule"][:80], c["program"], c["observed"]))
     return acc["n_lines"]
 
 
-def _random_chunk(ctx, d, emb, exe, tdir, replay_base, progs, nsched, acc):
+def _random_chunk(ctx, d, emb, exe, tdir, replay_base, progs, nsched, acc, scheds=None):
     rng = ctx.rng
     reqs, meta = [], []
     for pi, p in enumerate(progs):
-        for si, sc in enumerate(seed_schedules(rng, nsched)):
+        for si, sc in enumerate(scheds[pi] if scheds else seed_schedules(rng, nsched)):
             tr = os.path.join(tdir, "r%d_%d.txt" % (pi, si))
             reqs.append((sc, "1000", tr, p["expr"]))
             meta.append((p, sc, tr))
@@ -371,14 +400,24 @@ def _random_chunk(ctx, d, emb, exe, tdir, replay_base, progs, nsched, acc):
                 found[cls] = dict(input=inp, replay=rp, **kw)
         # ---- outcome: schedule-independent clauses
         if o is None or o == "TIMEOUT" or (o or "").startswith("CRASH"):
-            hit("random-program:" + ("hang" if o in (None, "TIMEOUT") else "crash"), expected="the program ends (all waits of the root are timed, virtual clock)", observed=str(o))
+            if p["df"] or (o or "").startswith("CRASH"):
+                hit("random-program:" + ("hang" if o in (None, "TIMEOUT") else "crash"), expected="the program ends (deadlock-free by construction, virtual clock)", observed=str(o))
+            else:
+                acc["nondf_hangs"] += 1      # a program that terminates threads may deadlock by design; its trace is still judged
             res = None
         else:
             try:
                 res = R.read_sexp(o)
             except Exception:
                 res = None
-            if res is None or o.startswith("EXC"):
+            if "#<" in o and not o.startswith("EXC"):
+                # a logged value turned into an unrelated heap object: the collector swept a live value of the thread
+                # program (depends on the allocation history of the process, not on the schedule; reproduced standalone and
+                # under ASAN, see notes/C11.md (e) F-C11-2).  Memory safety of the collector is C02's clause, so this is
+                # recorded, not judged here.
+                acc["corrupt"].append(dict(program=p["expr"], schedule=sc, observed=o[:400]))
+                res = None
+            elif res is None or o.startswith("EXC"):
                 hit("random-program:exception", expected="a result list", observed=o[:300])
                 res = None
             else:
@@ -594,7 +633,14 @@ def run(ctx):
                        "with 0 in-program assertion failures.  inner: for a sample of those runs the H4 trace (every primitive and "
                        "scheduler call with the state it leaves) is replayed on the extracted Coq model (same operations and "
                        "clock readings) and compared state by state; every dumped state is also checked against the statements "
-                       "of queues_wellformed / waiting_is_paused directly")
+                       "of queues_wellformed / waiting_is_paused directly.  random (round 2): generated thread programs (2-5 threads + root, "
+                       "1-3 mutexes, 1-2 condvars; lock/timed lock/unlock/condvar wait timed+untimed/signal/broadcast/yield/sleep/join "
+                       "timed+untimed/terminate/start/local steps; weights aimed at several waiters of one mutex / condvar / thread, timed "
+                       "mixed with untimed waiters, stale wait fields, sleepers among waiters; deadlock-free by construction unless they "
+                       "terminate threads) x 3-4 slice schedules on the virtual clock, every run traced; a case = (program, schedule); "
+                       "checked: the property's clauses on every state of the real scheduler (lost / spurious wake-up, thread lost, "
+                       "timeouts, lock exclusion), the schedule-independent part of the logged outcomes, every traced state against the "
+                       "extracted model, and the logged outcomes against the outcomes predicted from the model through the wrappers")
     ctx.coq_obligations("Properties_C11")
     d = ctx.build("default")
     exe = ctx.extract("C11")
@@ -713,8 +759,8 @@ def run(ctx):
         os.unlink(os.path.join(tdir, f))
 
     # ---------------------------------------------------------------- round 2: random thread programs
-    n_lines += run_random(ctx, d, emb, exe, tdir, replay_base, nprog=(int(os.environ.get("C11_NPROG", "0")) or (300 if not ctx.thorough else 5000)),
-                          nsched=(3 if not ctx.thorough else 6))
+    n_lines += run_random(ctx, d, emb, exe, tdir, replay_base, nprog=(int(os.environ.get("C11_NPROG", "0")) or (300 if not ctx.thorough else 2000)),
+                          nsched=(3 if not ctx.thorough else 4))
     ctx.cov["trace_lines_compared"] = n_lines
     ctx.sample(dict(kind="inner", traces=ctx.cov["traces_validated_against_impl"], lines=n_lines))
     for f in os.listdir(tdir):
@@ -723,4 +769,8 @@ def run(ctx):
     ctx.assume("each SRFI-18 primitive is one VM instruction (FCALL), so pre-emption inside a primitive does not exist; H4 injects slice lengths only at vm.c's refuel point")
     ctx.assume("wrappers of lib/srfi/18/interface.scm call yield! right after a primitive returned #f (enabled: primitives run only in a live non-waiting thread); checked on every replayed trace line (E1)")
     ctx.assume("not modelled: signals, fd polling / blocking I/O (sexp_blocker), child contexts of thread-terminate!, overflow of the microsecond arithmetic; thread-terminate! of a paused thread that has a pending timeout is outside the proved fragment")
+    ctx.assume("random programs: wake times in microseconds (virtual clock, +1 us per reading), so time-ordered insertion is exercised with distinct wake times only; "
+               "equal wake times and the > 1000000 carry of the microsecond field are not reached")
+    ctx.trust("harness/c11_rand.py: trace oracle (ghost 'what a thread waits for' = the primitive that blocked it), Python mirror of the interface.scm wrappers used for "
+              "the outcome prediction, trace squeeze (interior of runs of identical scheduler lines dropped)")
     ctx.trust("hook H4 (fixes/hook-C11-sched.patch): slice injection in vm.c, trace and virtual clock in lib/srfi/18/threads.c")
